@@ -3,6 +3,8 @@ package main
 import (
 	"encoding/json"
 	"fmt"
+	"github.com/pion/stun/v3/zzverif/hmacx"
+	"hash"
 	"net"
 	"runtime"
 	"runtime/debug"
@@ -43,6 +45,9 @@ var c20Plain = []c20Kind{
 	{"ALTERNATE-SERVER(raw: IPv6 family, IPv4-mapped address)", func() stun.Setter {
 		return &setPtr{stun.RawAttribute{Type: stun.AttrAlternateServer, Value: append([]byte{0, 2, 0x12, 0x34}, net.ParseIP("192.0.2.10").To16()...)}}
 	}, stun.AttrAlternateServer},
+	{"XOR-MAPPED-ADDRESS(raw: under the legacy type 0x8020 the decoder translates)", func() stun.Setter {
+		return &setPtr{stun.RawAttribute{Type: 0x8020, Value: []byte{0, 1, 0x12, 0x34, 0x21, 0x12, 0xA4, 0x43}}}
+	}, stun.AttrXORMappedAddress},
 	{"UnknownAttributes(3)", func() stun.Setter {
 		u := stun.UnknownAttributes{stun.AttrRealm, stun.AttrNonce, stun.AttrUsername}
 		return &setPtr{u}
@@ -252,6 +257,9 @@ func c20Measure(s c20Shape, warm string, only string) (allocating []string, nops
 		if only != "" && o.name != only {
 			continue
 		}
+		if libDebug && (strings.HasSuffix(o.name, "/mismatch") || strings.HasSuffix(o.name, "/alternating-keys")) {
+			continue // the debug build returns a failed check as an error VALUE (*IntegrityErr with both MACs): allocated by design
+		}
 		nops++
 		o.f() // warm-up: destination values and buffers have now been used for this message
 		var baseline float64
@@ -276,6 +284,41 @@ func c20Measure(s c20Shape, warm string, only string) (allocating []string, nops
 		}
 	}
 	return
+}
+
+// c20PoolAllocates: n pooled HMAC instances in use at once, returned, taken again.
+func c20PoolAllocates(n int, sha256on bool) bool {
+	key := []byte("a key of ordinary length")
+	held := make([]hash.Hash, n)
+	round := func() {
+		for i := range held {
+			if sha256on {
+				held[i] = hmacx.AcquireSHA256(key)
+			} else {
+				held[i] = hmacx.AcquireSHA1(key)
+			}
+		}
+		for i := range held {
+			if sha256on {
+				hmacx.PutSHA256(held[i])
+			} else {
+				hmacx.PutSHA1(held[i])
+			}
+			held[i] = nil
+		}
+	}
+	for i := 0; i < 4; i++ {
+		round()
+	}
+	if testing.AllocsPerRun(10, round) == 0 {
+		return false
+	}
+	for i := 0; i < 5; i++ {
+		if testing.AllocsPerRun(100, round) == 0 {
+			return false
+		}
+	}
+	return true
 }
 
 // c20Key: without spare capacity both the matching and the mismatching integrity check hit the same call site
@@ -355,6 +398,22 @@ func init() {
 				}
 				try(c20Shape{Kinds: ks, Suffix: []string{"MI:k20", "FP"}})
 			}
+			// the HMAC pool behind the integrity operations, with n instances held at once (what n integrity checks
+			// in flight at the same time hold), all returned, all taken again: steady state allocates nothing
+			if c.Shard == 0 {
+				for _, n := range []int{1, 2, 4, 5, 8, 16, 64} {
+					for _, sha256on := range []bool{false, true} {
+						c.Eval(1)
+						c.DistinctByConstruction++
+						if c20PoolAllocates(n, sha256on) {
+							c.Outcome("allocates/pool")
+							c.Violation("allocates/hmac-pool-with-several-instances-in-use", fmt.Sprintf("holding %d pooled HMAC instances at once (sha256=%v), returning them and taking them again allocates on every round in steady state", n, sha256on), c20Shape{Op: "pool", Kinds: []int{n}, Warm: fmt.Sprint(sha256on)})
+						} else {
+							c.Outcome("zero-alloc/pool")
+						}
+					}
+				}
+			}
 			c.Extra("max_list_length", float64(maxLen))
 			c.Extra("go_version", runtime.Version())
 		},
@@ -364,6 +423,12 @@ func init() {
 			var s c20Shape
 			if err := json.Unmarshal(p, &s); err != nil {
 				c.Fail("%v", err)
+			}
+			if s.Op == "pool" {
+				if c20PoolAllocates(s.Kinds[0], s.Warm == "true") {
+					c.Violation("allocates/hmac-pool-with-several-instances-in-use", "allocates", s)
+				}
+				return
 			}
 			al, _ := c20Measure(s, s.Warm, s.Op)
 			for _, name := range al {
